@@ -23,7 +23,7 @@ from vlib.runner import config_name
 
 QUICK_CFGS = [(1, 0, False), (2, 0, False), (3, 1, False), (3, 1, True), (5, 2, False)]
 THOROUGH_CFGS = QUICK_CFGS + [(3, 0, False), (4, 1, True), (5, 1, False), (5, 2, True), (7, 3, False)]
-DTYPES = ['secint', 'secfxp', 'secfld']
+DTYPES = ['secint', 'secfxp', 'secfld', 'secint16']          # secint16: a 48-bit field ('medium' relative to the security parameter)
 FAMILIES = ['arith', 'cmp', 'reduce', 'shape', 'stack', 'index', 'linalg', 'left', 'io']
 P_FLD = 101
 F_FXP = 16
@@ -79,6 +79,9 @@ def run(shard, rec):
     if shard['kind'] == 'sharing':
         return run_sharing(shard, rec, rng, np, ns, sim)
     dt = shard['dtype']
+    bits16 = dt == 'secint16'
+    if bits16:
+        dt = 'secint'
     m, t, no_prss = shard['cfg']
     MAXSTEPS = [0]
 
@@ -169,7 +172,7 @@ def run(shard, rec):
             case = [shard['name'], ci, fam, list(s1), list(s2), X.tolist() if X.size <= 12 else None, Y.tolist() if Y.size <= 12 else None]
             if not rec.wants(case):
                 continue
-            feats = {'dtype': dt, 'family': fam, 'zero_dim': s1 == () or s2 == (), 'zero_len_axis': 0 in s1 or 0 in s2, 'degenerate_shape': s1 == () or s2 == () or 0 in s1 or 0 in s2, 't_gt_0': t > 0, 'm_gt_1': m > 1}
+            feats = {'dtype': shard['dtype'], 'family': fam, 'zero_dim': s1 == () or s2 == (), 'zero_len_axis': 0 in s1 or 0 in s2, 'degenerate_shape': s1 == () or s2 == () or 0 in s1 or 0 in s2, 't_gt_0': t > 0, 'm_gt_1': m > 1}
             info = {}
             ops = build_ops(fam, dt, s1, s2, X, Y, rng, np, m, info)
             feats['axis_before_last_two'] = len(s1) >= 3 and info.get('axis') is not None and info['axis'] < len(s1) - 2
@@ -192,7 +195,7 @@ def run(shard, rec):
                 continue
 
             async def program(mpc, pid, todo=todo):
-                T = {'secint': mpc.SecInt(32), 'secfxp': mpc.SecFxp(32, F_FXP), 'secfld': mpc.SecFld(P_FLD)}[dt]
+                T = {'secint': mpc.SecInt(16 if bits16 else 32), 'secfxp': mpc.SecFxp(32, F_FXP), 'secfld': mpc.SecFld(P_FLD)}[dt]
                 mk = (lambda a: T.array(a, integral=False)) if dt == 'secfxp' else (lambda a: T.array(a))
                 x = mpc.input(mk(X if pid == 0 else np.zeros_like(X)), senders=0)
                 y = mpc.input(mk(Y if pid == 0 else np.zeros_like(Y)), senders=0)
@@ -352,7 +355,7 @@ def build_ops(fam, dt, s1, s2, X, Y, rng, np, m=1, info=None):
     elif fam == 'reduce':
         add('sum', lambda np, mpc, x, y: np.sum(x))
         add('sum_method', lambda np, mpc, x, y: x.sum())
-        if n1 <= (3 if fx else 5):
+        if n1 <= 3:
             add('prod', lambda np, mpc, x, y: np.prod(x), 0 if not fx else 3 * 64)
         add('all', lambda np, mpc, x, y: np.all(x == x))
         add('all_mixed', lambda np, mpc, x, y: np.all(x == y))
@@ -362,7 +365,7 @@ def build_ops(fam, dt, s1, s2, X, Y, rng, np, m=1, info=None):
             add('sum_axis', lambda np, mpc, x, y: np.sum(x, axis=ax))
             add('sum_axis_keepdims', lambda np, mpc, x, y: np.sum(x, axis=ax, keepdims=True))
             add('sum_neg_axis', lambda np, mpc, x, y: x.sum(axis=-1))
-            if s1[ax] <= (3 if fx else 5):
+            if s1[ax] <= 3:
                 add('prod_axis', lambda np, mpc, x, y: np.prod(x, axis=ax), 0 if not fx else 3 * 64)
             add('all_axis', lambda np, mpc, x, y: np.all(x == y, axis=ax))
             add('any_axis', lambda np, mpc, x, y: np.any(x != y, axis=-1))
@@ -498,7 +501,7 @@ def build_ops(fam, dt, s1, s2, X, Y, rng, np, m=1, info=None):
         add('reshare', lambda np, mpc, x, y: x if mpc is None else mpc._reshare(x))
         if dt == 'secint':
             add('to_from_bits', lambda np, mpc, x, y: x * x if mpc is None else mpc.np_from_bits(mpc.np_to_bits(x * x)))
-            add('to_bits_shape', lambda np, mpc, x, y: x.shape + (32,) if mpc is None else mpc.np_to_bits(x).shape)
+            add('to_bits_shape', lambda np, mpc, x, y: x.shape if mpc is None else mpc.np_to_bits(x).shape[:-1])
         if dt == 'secfxp':
             add('trunc', lambda np, mpc, x, y: x / 4 if mpc is None else mpc.np_trunc(x, f=2), 2)
     return ops
